@@ -991,7 +991,7 @@ int main(int argc, char **argv)
 	sc.name = "dkg";
 	sc.real_components = "src/PedersenVSS.cc, GennaroJareckiKrawczykRabinDKG.cc (DKG + NTS), CanettiGennaroJareckiKrawczykRabinASTC.cc (RVSS, ZVSS, DKG, DSS incl. Refresh), JareckiLysyanskayaASTC.cc (RVSS, EDCF::Flip), CachinKursawePetzoldShoupSEABP.cc (reliable broadcast incl. Sync barriers), mpz_helper interpolation";
 	sc.stub_components = "aiounicast_select replaced by SimUnicast (two nets: private channels and broadcast transport, seeded latencies, per-link FIFO) except in full-stack runs (probe.fullstack_runs; 1 of 8 by default, all with --fullstack), where the real aiounicast_select runs over simulated descriptors and only the kernel (pipes, select) is a stub; processes (one baton-scheduled task per party); wall clock (discrete-event, per-task skew); entropy; faulty parties: library switch, silence, crash after k messages, mutating/dropping links";
-	sc.rule = "one case = protocol (New-DKG + threshold Schnorr, Pedersen VSS with honest or faulty dealer, Canetti et al. DKG with refresh, threshold DSS with refresh, n-party coin flip) x n=3..7, t<=(n-1)/3, up to t faulty parties of four kinds, latency class, one slow honest party, clock skew, restart (PublishState/stream constructor) of a subset of parties at phase boundaries, messages 0/1/q-1/q/random; oracle by harness GMP code over the collected public members (agreement, share/verification-key match, every (t+1)-subset interpolation, textbook Schnorr/DSA); runs in which an honest party timed out on an honest party are counted as excluded; distinct = history fingerprint over all messages and scheduling decisions";
+	sc.rule = "one case = protocol (New-DKG + threshold Schnorr, Pedersen VSS with honest or faulty dealer, Canetti et al. DKG with refresh, threshold DSS with refresh, n-party coin flip) x n=3..7, t<=(n-1)/3 (New-DKG, dealer-based VSS and coin flip also (n-1)/2), stand-alone Joint-RVSS with t'>=t, up to t deviating parties of seven kinds (library switch, silent, crash after a fraction of its messages, per-recipient mutating links, out-of-range values, wrong share to m recipients, one own broadcast replaced) of which at most (n-1)/3 deviate below the broadcast, transport = SimUnicast or (1 run in 8) the library's aiounicast_select over simulated descriptors with fragmented writes, short reads/writes and EINTR, latency class, one slow honest party, clock skew, restart (PublishState/stream constructor) of a subset of parties at phase boundaries, messages 0/1/q-1/q/random; oracle by harness GMP code over the collected public members (agreement, share/verification-key match, every (t+1)-subset interpolation, textbook Schnorr/DSA); runs in which an honest party timed out on an honest party are counted as excluded; distinct = history fingerprint over all messages and scheduling decisions";
 	sc.generate = dkg_generate; sc.execute = dkg_execute; sc.shrink_more = dkg_shrink_more; sc.worker_init = dkg_init;
 	return runner_main(argc, argv, sc);
 }
